@@ -107,4 +107,9 @@ theorem schedule_wiring :
     (∀ w ∈ Gen.Waiter.sharedScheduleWrappers, w = "coreutil.NewCallbackOnFinishSchedule") ∧
     Gen.Waiter.instanceScheduleFrom = "deps.newSchedule()" := by decide
 
+/-- the default block of `readConfig` runs for every config (its only condition is the type assertion of the `pools` list) and for
+every pool section (no condition around the per-section lookup): not for some formats, sources or positions only -/
+theorem cli_default_unconditional :
+    Gen.Waiter.cliDefaultGuard = "type-assertion-only" ∧ Gen.Waiter.cliDefaultInnerGuards = [] := by decide
+
 end Pandora.Bridge.Waiter
